@@ -28,7 +28,7 @@ def classify_compile(tc, r):
     t = r.text() + r.err.decode("latin-1")
     if r.cpu_hit or "Exceeded time limit imposed by operating system" in t:
         return Outcome("hang", text=t[-400:], res=r)
-    if aldor.has_fault(r) or "Compiler bug" in t:
+    if aldor.has_fault(r):
         return Outcome("crash", text=t[-600:], site=aldor.fault_site(tc, t), res=r)
     if aldor.has_error(t) or r.rc != 0:
         return Outcome("rejected", text=t[:900], res=r)
@@ -40,7 +40,7 @@ def run_interp(tc, wd, file, opts=("-Q1",), env=None, lib="aldor", cpu=None):
     t = r.text()
     if r.cpu_hit or "Exceeded time limit imposed by operating system" in t:
         return Outcome("hang", text=t[-300:], res=r)
-    if "VERIF-FAULT-SITE" in t or "Compiler bug" in t or "Bug:" in t or "Program fault" in t:
+    if aldor.has_fault(r):
         return Outcome("crash", text=t[-600:], site=aldor.fault_site(tc, t), res=r)
     if aldor.has_error(t):
         return Outcome("rejected", text=t[:900], res=r)
